@@ -139,8 +139,33 @@ macro_rules! pathbeh_fam {
 	}};
 }
 
+/// The same behaviour through a handle made by the PUBLIC constructor `iri::PathMut::new(buffer,
+/// start, end)` on a plain byte vector holding the same text (the URI family has no such constructor).
+fn raw_path_iri(case: &Value, f: &mut Fails) {
+	let kind = case["kind"].as_str().unwrap();
+	if kind == "path" {
+		return;
+	}
+	let tag = "iri.PathMut::new";
+	let pre = text(&case["pre"]);
+	let suf = text(&case["suf"]);
+	let init = text(&case["init"]);
+	let steps = case["steps"].as_array().unwrap();
+	let mut v = format!("{pre}{init}{suf}").into_bytes();
+	let mut dead = false;
+	let last_view: Option<String> = {
+		let mut pm = unsafe { iref::iri::PathMut::new(&mut v, pre.len(), pre.len() + init.len()) };
+		path_ops!(f, pm, iri, steps, tag, dead);
+		if dead { None } else { Some(pm.as_str().to_string()) }
+	};
+	if let Some(view) = last_view {
+		f.eq(C10, &format!("{tag}.after_drop"), String::from_utf8_lossy(&v).as_ref(), format!("{pre}{view}{suf}").as_str());
+	}
+}
+
 pub fn run_path(case: &Value, f: &mut Fails) {
 	pathbeh_fam!(f, case, iri, IriBuf, IriRefBuf, "iri");
+	raw_path_iri(case, f);
 	if case["fam"].as_str() == Some("both") {
 		pathbeh_fam!(f, case, uri, UriBuf, UriRefBuf, "uri");
 	}
@@ -224,6 +249,26 @@ macro_rules! authbeh_fam {
 		} else {
 			let mut buf = iref::$m::$RiRefBuf::new(init.clone().into()).expect("ref");
 			auth_steps!($f, buf, $m, steps, tag);
+		}
+		// the same behaviour through a handle made by the PUBLIC constructor AuthorityMut::new(buffer,
+		// start, end) on a plain byte vector holding the same text (start .. end: where the authority is)
+		{
+			struct Raw { v: Vec<u8>, start: usize, end: usize }
+			impl Raw {
+				fn authority_mut(&mut self) -> Option<iref::$m::AuthorityMut<'_>> {
+					Some(unsafe { iref::$m::AuthorityMut::new(&mut self.v, self.start, self.end) })
+				}
+				fn as_bytes(&self) -> &[u8] { &self.v }
+			}
+			let located = iref::$m::$RiRefBuf::new(init.clone().into()).ok().and_then(|r| {
+				r.authority().and_then(|a| ptr_off(r.as_bytes(), a.as_bytes()).map(|o| (o, o + a.as_bytes().len())))
+			});
+			if let Some((start, end)) = located {
+				let mut raw = Raw { v: init.clone().into_bytes(), start, end };
+				let tag2 = format!("{tag}.AuthorityMut::new");
+				let tag2 = tag2.as_str();
+				auth_steps!($f, raw, $m, steps, tag2);
+			}
 		}
 	}};
 }
